@@ -637,6 +637,8 @@ def transfer(w, lab):
         w2 = World(w.uni, w.read_mem(), w.taskspec)
         w2.m.load(w.m.dump())
     elif kind == "copy_plain":
+        if not w.uni["name"].endswith("/rebased"):
+            _rider_check(w)
         w2 = World(w.uni, w.read_mem(), w.taskspec)
         w2.m.copy_expr_from(w.m, w.uni["label"])
     elif kind == "copy_bind":
@@ -705,6 +707,46 @@ def _decoy_check(w):
         ex = w2.sref[k]._expr
         if ex is None or repr(ex) != txt:
             raise DecoyMismatch(f"the unrelated existing definition of {w2.sref[k]!r} was changed by the copy: {txt} -> {ex!r}")
+
+
+def _rider_check(w):
+    """copy_expr_from of a container whose definitions include, next to the ones of the specification's universe, definitions over further
+    locations of the SAME container that involve a SECOND container: a target whose key is computed from the other container, a target whose
+    key is computed from the same container, a right-hand side reading the other container.  Every definition rooted in the copied
+    container must arrive (same printed target, same printed expression), and both managers must react alike to a later assignment."""
+    uni = w.uni
+    lab = uni["label"]
+
+    def mk():
+        x = World(uni, w.read_mem(), w.taskspec)
+        x.m.copy_expr_from(w.m, lab)
+        dict.__setitem__(x.s, "_arr", [0.0, 0.0, 0.0])
+        dict.__setitem__(x.s, "_p", 3.0)
+        dict.__setitem__(x.s, "_k", 2)
+        dict.__setitem__(x.s, "_q", 0.0)
+        x.cfg = {"i": 1, "p": 2.0}
+        x.cfgref = x.m.ref(x.cfg, "cfg")
+        return x
+    if not isinstance(w.s, dict):
+        return
+    src, dst = mk(), mk()
+    src.sref["_arr"][src.cfgref["i"]] = src.sref["_p"] * 2          # target key computed from ANOTHER container
+    src.sref["_arr"][src.sref["_k"]] = src.sref["_p"] + 1           # target key computed from the same container
+    src.sref["_q"] = src.cfgref["p"] + src.sref["_p"]               # right-hand side reading the other container
+    dst.m.copy_expr_from(src.m, lab)
+
+    def defs(x):
+        return sorted((str(t.taskid), str(t.expr)) for t in x.m.tasks.values() if isinstance(t, xt.ExprTask) and str(t.taskid).startswith(lab + "["))
+    a, b = defs(src), defs(dst)
+    if a != b:
+        raise DecoyMismatch(f"copy_expr_from({lab!r}) of a container holding definitions that involve a second container: the source defines "
+                            f"{[x for x in a if x not in b]} which the copy lacks (extra in the copy: {[x for x in b if x not in a]})")
+    for x in (src, dst):
+        x.sref["_p"] = 10.0
+    ca = {k: repr(dict.__getitem__(src.s, k)) for k in ("_arr", "_p", "_q")}
+    cb = {k: repr(dict.__getitem__(dst.s, k)) for k in ("_arr", "_p", "_q")}
+    if ca != cb:
+        raise DecoyMismatch(f"after copy_expr_from({lab!r}) and the same assignment {lab}['_p'] = 10.0 on both managers: source container {ca}, copy {cb}")
 
 
 def gen_fun(w, lab):
